@@ -5,6 +5,7 @@
 package c10
 
 import (
+	"sort"
 	"bytes"
 	"fmt"
 	"testing"
@@ -85,6 +86,18 @@ type Action struct {
 	Kind    string
 	Seq     []int    `json:",omitempty"`
 	Streams []string `json:",omitempty"` // decobj: "plain:<i>", "mct:<i>", "nomct:<i>", "roi:<i>", "part2:<i>"
+	Other   *Other   `json:",omitempty"` // kind "other"
+}
+
+// Other is an unrelated call made on the same registered codec between the actions of a
+// history: one frame of another geometry and depth, encoded (and decoded again) with explicit,
+// non-default parameters. Its own result is not judged; what follows it is ("output i depends
+// ... not on earlier calls made on the same codec").
+type Other struct {
+	W, H, SPP, BA, BS int
+	Seed              uint64
+	Ints              map[string]int  `json:",omitempty"`
+	Bools             map[string]bool `json:",omitempty"`
 }
 
 type Case struct {
@@ -137,11 +150,41 @@ func Gen(t *rapid.T) *Case {
 	na := rapid.IntRange(1, 6).Draw(t, "nactions")
 	for i := 0; i < na; i++ {
 		kinds := []string{"encode", "encode", "decode", "decode"}
+		if i+1 < na {
+			kinds = append(kinds, "other") // always followed by something that is judged
+		}
 		if sx.J2K {
 			kinds = append(kinds, "encobj", "decobj", "decobj")
 		}
 		a := Action{Kind: rapid.SampledFrom(kinds).Draw(t, "kind")}
 		switch a.Kind {
+		case "other":
+			ot := &Other{W: rapid.IntRange(1, 40).Draw(t, "ow"), H: rapid.IntRange(1, 40).Draw(t, "oh"), SPP: rapid.SampledFrom([]int{1, 3}).Draw(t, "ospp"),
+				BA: rapid.SampledFrom([]int{8, 16}).Draw(t, "oba"), Seed: rapid.Uint64().Draw(t, "oseed"), Ints: map[string]int{}, Bools: map[string]bool{}}
+			ot.BS = rapid.IntRange(sx.MinBS, min(ot.BA, sx.MaxBS)).Draw(t, "obs")
+			if ot.BA == 16 && ot.BS <= 8 && sx.MaxBS > 8 {
+				ot.BS = min(16, sx.MaxBS) // keep the unrelated call itself outside KF-C10-1
+			}
+			if sx.Key == "51" && ot.BS > 8 {
+				ot.SPP = 1
+			}
+			if sx.Key == "50" {
+				ot.BA = 8
+				ot.BS = min(ot.BS, 8)
+			}
+			for _, name := range []string{"quality", "predictor", "near", "numLevels", "numLayers", "rate", "progressionOrder", "targetRatio", "blockWidth", "blockHeight"} {
+				if rapid.IntRange(0, 2).Draw(t, "set") == 0 {
+					ot.Ints[name] = map[string]*rapid.Generator[int]{"quality": rapid.IntRange(1, 100), "predictor": rapid.IntRange(1, 7), "near": rapid.IntRange(0, 9),
+						"numLevels": rapid.IntRange(0, 4), "numLayers": rapid.IntRange(1, 5), "rate": rapid.IntRange(2, 300), "progressionOrder": rapid.IntRange(0, 4),
+						"targetRatio": rapid.IntRange(0, 40), "blockWidth": rapid.SampledFrom([]int{4, 16, 32}), "blockHeight": rapid.SampledFrom([]int{4, 16, 32})}[name].Draw(t, name)
+				}
+			}
+			for _, name := range []string{"allowMCT", "irreversible", "usePCRDOpt", "appendLosslessLayer"} {
+				if rapid.IntRange(0, 2).Draw(t, "setb") == 0 {
+					ot.Bools[name] = rapid.Bool().Draw(t, name)
+				}
+			}
+			a.Other = ot
 		case "decobj":
 			n := rapid.IntRange(2, 5).Draw(t, "nstreams")
 			for k := 0; k < n; k++ {
@@ -310,6 +353,12 @@ func Check(c *Case) (o core.Outcome) {
 		return
 	}
 	e := &env{c: c, sx: sx, cd: cd, info: c.info()}
+	before := core.Snapshot(cd)
+	defer func() {
+		if after := core.Snapshot(cd); after != before && o.Fail == nil {
+			o.Fail = core.Failf("codec-field-changed", "the registered %s codec object changed during the history: %s -> %s", sx.Key, before, after)
+		}
+	}()
 	o.Label("syntax=%s", sx.Key)
 	o.Label("ba=%d", c.BA)
 	if c.BS < c.BA {
@@ -383,6 +432,47 @@ func Check(c *Case) (o core.Outcome) {
 
 	for ai, a := range c.Actions {
 		switch a.Kind {
+		case "other":
+			ot := a.Other
+			if ot == nil {
+				continue
+			}
+			pi := "MONOCHROME2"
+			if ot.SPP == 3 {
+				pi = "RGB"
+			}
+			oinfo := &imagetypes.FrameInfo{Width: uint16(ot.W), Height: uint16(ot.H), BitsAllocated: uint16(ot.BA), BitsStored: uint16(ot.BS), HighBit: uint16(ot.BS - 1),
+				SamplesPerPixel: uint16(ot.SPP), PhotometricInterpretation: pi}
+			oim := &gen.Image{W: ot.W, H: ot.H, C: ot.SPP, P: ot.BS, Class: "noise", Seed: ot.Seed}
+			par := e.cd.GetDefaultParameters()
+			if par != nil {
+				names := make([]string, 0, len(ot.Ints)+len(ot.Bools))
+				for n := range ot.Ints {
+					names = append(names, n)
+				}
+				for n := range ot.Bools {
+					names = append(names, n)
+				}
+				sort.Strings(names)
+				for _, n := range names {
+					if v, ok := ot.Ints[n]; ok {
+						par.SetParameter(n, v)
+					} else {
+						par.SetParameter(n, ot.Bools[n])
+					}
+				}
+			}
+			osrc, odst := codec.NewTestPixelData(oinfo), codec.NewTestPixelData(oinfo)
+			_ = osrc.AddFrame(gen.PackBytes(oim.Samples(), oim.P, ot.BA/8))
+			// the unrelated call may be rejected (parameter combinations the codec does not take);
+			// it is not judged, but it must not panic (core.Eval's guard reports that)
+			if err := e.cd.Encode(osrc, odst, par); err == nil && odst.FrameCount() == 1 {
+				back := codec.NewTestPixelData(oinfo)
+				_ = e.cd.Decode(odst, back, par)
+				o.Label("other-call-accepted")
+			} else {
+				o.Label("other-call-rejected")
+			}
 		case "encode":
 			out, copies, err := e.encodeFrames(a.Seq)
 			if err != nil {
